@@ -123,23 +123,23 @@ VALID_VALUES = {
 
 # clearly invalid spellings per checked simple type (C13 statement: dateTime, boolean, integer kinds, duration, enumerations)
 INVALID_VALUES = {
-    'dateTime': ['not-a-date', '2020-13-45T25:61:61Z', '12 May 2020',
+    'dateTime': ['', '2024-01-01T00:00:61Z', 'not-a-date', '2020-13-45T25:61:61Z', '12 May 2020',
                  # near misses: a conforming value with something before / after / inside it
                  '2024-01-01T00:00:00Zjunk', '2024-01-01T00:00:00 UTC', '2024-01-01T00:00:00+0100', '2024-01-01T00:00:00.5.5Z', '2024-01-01T00:00:00ZZ', 'x2024-01-01T00:00:00Z',
                  '2024-01-01', '2024-01-01T00:00Z', '2024-01-01T00:00:00Z 2024-01-01T00:00:00Z', '2024-01-01T24:00:01Z', '2024-1-1T0:0:0Z', '2024-01-01t00:00:00z', '2024-01-01T00:00:00.Z'],
-    'boolean': ['maybe', '2', 'yes', 'truex', 'xtrue', 'true false', '1x', 'falsey', '01', 't', '-1', 'True', 'TRUE'],
-    'integer': ['1.5', 'abc', '1e3', '12abc', 'abc12', '1 2', '0x10', '1,000', '1_000', '--5', '5-', u'\u0661\u0662'],
-    'nonNegativeInteger': ['-1', '1.5', 'abc', '12abc', '1_0', '-1x'],
-    'positiveInteger': ['0', '-1', 'abc', '1x', '0x1', '1_0', '-0'],
+    'boolean': ['', 'maybe', '2', 'yes', 'truex', 'xtrue', 'true false', '1x', 'falsey', '01', 't', '-1', 'True', 'TRUE'],
+    'integer': ['', '1.5', 'abc', '1e3', '12abc', 'abc12', '1 2', '0x10', '1,000', '1_000', '--5', '5-', u'\u0661\u0662'],
+    'nonNegativeInteger': ['', '-1', '1.5', 'abc', '12abc', '1_0', '-1x'],
+    'positiveInteger': ['', '0', '-1', 'abc', '1x', '0x1', '1_0', '-0'],
     'PositiveInteger': ['0', '-1', 'abc', '1x', '1_0'],
-    'unsignedShort': ['-1', '65536', 'abc', '1.5', '65535x', '1_0', '+-1', '0x10'],
-    'duration': ['P-1Y', 'one hour', '12', 'P1Yjunk', 'xP1Y', 'P1Y2', 'PT', 'P', 'P1S', 'P1Y ', 'P1M1Y', 'P1YT', '1Y', 'PT1Y', 'PT1H1H', 'P1.5Y'],
+    'unsignedShort': ['', '-1', '65536', 'abc', '1.5', '65535x', '1_0', '+-1', '0x10'],
+    'duration': ['', 'PT1,5S', 'P-1Y', 'one hour', '12', 'P1Yjunk', 'xP1Y', 'P1Y2', 'PT', 'P', 'P1S', 'P1Y ', 'P1M1Y', 'P1YT', '1Y', 'PT1Y', 'PT1H1H', 'P1.5Y'],
 }
 # spellings the library accepts although they do not conform (KNOWN_FINDINGS.json; the check excludes exactly these and counts them)
 LENIENT_KNOWN = {
     'C13-boolean-case-variants-accepted': ('boolean', ['True', 'TRUE']),
-    'C13-datetime-lenient-lexical-forms': ('dateTime', ['2024-1-1T0:0:0Z', '2024-01-01t00:00:00z', '2024-01-01T00:00:00.Z']),
-    'C13-duration-lenient-lexical-forms': ('duration', ['P1.5Y']),
+    'C13-datetime-lenient-lexical-forms': ('dateTime', ['2024-1-1T0:0:0Z', '2024-01-01t00:00:00z', '2024-01-01T00:00:00.Z', '2024-01-01T00:00:61Z']),
+    'C13-duration-lenient-lexical-forms': ('duration', ['P1.5Y', 'PT1,5S']),
 }
 
 
